@@ -10,6 +10,7 @@ import SCoda.Model.Extract
 import SCoda.Gen.Tables
 import SCoda.Gen.Settings
 import SCoda.Gen.TheoryFns
+import SCoda.Model.BarOps
 
 open SCoda
 
@@ -254,6 +255,10 @@ def handle : P String := do
   | "barCopy" => do
     let n ← pint; let d ← pint; let key ← pint; let r ← msgs
     pure (pExcept pBar ((mkBar env.ppqn r n d key) >>= (Bar.copy env.ppqn)))
+  | "barTranspose" => do
+    let n ← pint; let d ← pint; let key ← pint; let r ← msgs; let b ← pint
+    pure (pExcept (fun (x : Bar × Bool) => pBool x.2 ++ " " ++ pBar x.1)
+      ((mkBar env.ppqn r n d key) >>= (fun bar => Bar.transpose env bar b)))
   | "splitBars" => do
     let metaIdx ← pnat; let requant ← pbool; let tracks ← many msgs
     pure (pExcept (fun tb => " | ".intercalate (tb.map (fun bs => " ".intercalate (bs.map pBar))))
@@ -325,3 +330,7 @@ def main : IO Unit := do
   let stdout ← IO.getStdout
   loop stdin stdout
   stdout.flush
+
+example : tkFn = SCoda.genTk := rfl
+example : cofFn = SCoda.genCof := rfl
+example : env = SCoda.genEnv := rfl
